@@ -45,6 +45,8 @@ use nv::{Case, CaseWriter, Obs, Outcome, Rng, guarded, hex, unhex};
 
 #[path = "../shared/c11_deep4.rs"]
 mod c11_deep4;
+#[path = "../shared/c11_deep7.rs"]
+mod c11_deep7;
 
 // -------------------------------------------------------------------------------------------
 // naive whole-file parse (the truth)
@@ -1072,6 +1074,10 @@ fn run(c: &Case) -> Obs {
         "qf" => c11_deep4::run_qf(c),
         "aq" => c11_deep4::run_aq(c),
         "fqg" => c11_deep4::run_fqg(c),
+        "qy" => c11_deep7::run_qy(c),
+        "qyb" => c11_deep7::run_qyb(c),
+        "fqi" => c11_deep7::run_fqi(c),
+        "wre" => c11_deep7::run_wre(c),
         _ => Obs { obs: "-".into(), verdict: "skip".into(), nontrivial: false },
     }
 }
@@ -1682,6 +1688,7 @@ fn gen_fqr(rng: &mut Rng, w: &mut CaseWriter) {
     }
     w.push("fqr", vec![hex(&f)]);
     w.push("fqg", vec![hex(&f)]);
+    w.push("fqi", vec![hex(&f)]);
 }
 
 fn generate(rng: &mut Rng, tier: &str, w: &mut CaseWriter) {
@@ -1758,6 +1765,7 @@ fn generate(rng: &mut Rng, tier: &str, w: &mut CaseWriter) {
     for fx in [&b"@r0\nACGT\n+\nNDLS\n"[..], b"@r0 LN:4\r\nACGT\r\n+r0\r\n@+@+\r\n", b"@\nA\r", b"@r0\r\nAC\r\n+\r\n!!", b"@r0", b"@r0\nAC\n", b"r0\n", b"@r0\nAC\n-\n!!\n", b""] {
         w.push("fqr", vec![hex(fx)]);
         w.push("fqg", vec![hex(fx)]);
+        w.push("fqi", vec![hex(fx)]);
     }
     for _ in 0..300 * scale {
         gen_fqr(rng, w);
@@ -1806,6 +1814,20 @@ fn generate(rng: &mut Rng, tier: &str, w: &mut CaseWriter) {
             c11_deep4::gen_aq(&mut r4, w, &f);
         }
     }
+    // ---- seventh wave: any gzi index + virtual positions (qy), the same from the file bytes through a
+    // scripted source (qyb), FASTA writer on records outside rec_ok (wre)
+    let mut r7 = rng.fork();
+    for fx in [&b">a\nACGT\n>b\nTTTT\n"[..], b">sq0\r\nACGT\r\nACGT\r\nAC\r\n>sq1 d\r\nNN\r\n", b">sq0\nACGT"] {
+        c11_deep7::gen_qy(&mut r7, w, fx);
+    }
+    for _ in 0..150 * scale {
+        let recs = gen_recs(&mut r7);
+        let f = render(&recs, !r7.chance(1, 5));
+        c11_deep7::gen_qy(&mut r7, w, &f);
+    }
+    for _ in 0..60 * scale {
+        c11_deep7::gen_wre(&mut r7, w);
+    }
     for fx in [
         &b"@r\nAC\nGT\n+\n!!\n!!\n"[..], // a wrapped (multi-line) record
         b"@r\nACGT\n+\n!!\n!!\n",
@@ -1823,6 +1845,7 @@ fn generate(rng: &mut Rng, tier: &str, w: &mut CaseWriter) {
         b"@r\nACGT\n+\n!!!!\n@",
     ] {
         w.push("fqg", vec![hex(fx)]);
+        w.push("fqi", vec![hex(fx)]);
         w.push("fqr", vec![hex(fx)]);
     }
 }
